@@ -15,9 +15,11 @@ import (
 	"math/rand"
 	"os"
 	"sort"
+	"strings"
 
 	"diagonal.works/b6"
 	"diagonal.works/b6/search"
+	"verif/harness/vh"
 )
 
 type stream struct {
@@ -301,6 +303,7 @@ func driveMain(args []string) int {
 	}
 	rng := rand.New(rand.NewSource(*seed))
 	nstreams, nevents, line := 0, 0, 0
+	panics := []map[string]interface{}{}
 	lay := layoutStats{}
 	for run := 0; run < *runs; run++ {
 		n := 2 + rng.Intn(*maxKeys-1)
@@ -352,60 +355,70 @@ func driveMain(args []string) int {
 		kind := ks[rng.Intn(len(ks))]
 		v := variant{Order: []string{"asc", "desc", "shuffle"}[rng.Intn(3)], Churn: rng.Intn(2) == 0 && n <= 400,
 			KeepEmpty: rng.Intn(2) == 0, Cores: 1 + rng.Intn(3), ExtraNS: rng.Intn(2) == 0, Seed: rng.Int63n(1 << 30)}
-		real, bad := buildIndex(kind, v, idx, tab, &lay)
-		if bad != "" {
-			fmt.Fprintln(os.Stderr, "build failed:", bad)
-			return 2
-		}
 		rec := &recorder{tab: tab}
-		var top search.Iterator
-		if *mode == "list" {
-			top = rec.wrap(kind, q.plain(), real.Begin("t"))
-		} else {
-			query := q.buildRecorded(rec, tab, kind)
-			top = query.Compile(&recIndex{Index: real, r: rec, kind: kind})
-			if q.K == "all" || q.K == "empty" { // leaves are not wrapped by buildRecorded
-				top = rec.wrap(nodeName(q, kind), q.plain(), top)
+		panicked := vh.Catch(func() {
+			real, bad := buildIndex(kind, v, idx, tab, &lay)
+			if bad != "" {
+				panic("build failed: " + bad)
 			}
-		}
-		cur := -1
-		ncalls := 1 + rng.Intn(*maxCalls)
-		full := rng.Intn(4) == 0 // decode the whole list: Next until it says false
-		if full {
-			ncalls = n + 2
-		}
-		for i := 0; i < ncalls; i++ {
-			var ok bool
-			if full || rng.Intn(2) == 0 {
-				ok = top.Next()
+			var top search.Iterator
+			if *mode == "list" {
+				top = rec.wrap(kind, q.plain(), real.Begin("t"))
 			} else {
-				var k int
-				switch rng.Intn(5) {
-				case 0:
-					k = rng.Intn(n)
-				case 1:
-					k = cur + 1 + rng.Intn(3)
-				case 2:
-					k = cur + 1 + rng.Intn(1+n/4)
-				case 3:
-					k = cur - rng.Intn(3)
-				default:
-					k = cur + 1 + rng.Intn(40)
+				query := q.buildRecorded(rec, tab, kind)
+				top = query.Compile(&recIndex{Index: real, r: rec, kind: kind})
+				if q.K == "all" || q.K == "empty" { // leaves are not wrapped by buildRecorded
+					top = rec.wrap(nodeName(q, kind), q.plain(), top)
 				}
-				if k < 0 {
-					k = 0
+			}
+			cur := -1
+			ncalls := 1 + rng.Intn(*maxCalls)
+			full := rng.Intn(4) == 0 // decode the whole list: Next until it says false
+			if full {
+				ncalls = n + 2
+			}
+			for i := 0; i < ncalls; i++ {
+				var ok bool
+				if full || rng.Intn(2) == 0 {
+					ok = top.Next()
+				} else {
+					var k int
+					switch rng.Intn(5) {
+					case 0:
+						k = rng.Intn(n)
+					case 1:
+						k = cur + 1 + rng.Intn(3)
+					case 2:
+						k = cur + 1 + rng.Intn(1+n/4)
+					case 3:
+						k = cur - rng.Intn(3)
+					default:
+						k = cur + 1 + rng.Intn(40)
+					}
+					if k < 0 {
+						k = 0
+					}
+					if k >= n {
+						k = n - 1
+					}
+					ok = top.Advance(tab.ids[k])
 				}
-				if k >= n {
-					k = n - 1
+				if !ok {
+					break
 				}
-				ok = top.Advance(tab.ids[k])
+				if r := tab.rankOf(top.Value()); r >= 0 {
+					cur = r
+				}
 			}
-			if !ok {
-				break
+		})
+		if panicked != "" {
+			// a panic in the code under test: reported by the check as a failure of this run
+			site := panicked
+			if i := strings.LastIndex(panicked, "@"); i >= 0 {
+				site = panicked[i+1:]
 			}
-			if r := tab.rankOf(top.Value()); r >= 0 {
-				cur = r
-			}
+			panics = append(panics, map[string]interface{}{"run": run, "kind": kind, "site": site, "msg": panicked, "query": q.plain()})
+			rec.streams = nil
 		}
 		idxJSON, _ := json.Marshal(idx)
 		first := line + 1
@@ -434,8 +447,9 @@ func driveMain(args []string) int {
 			tw.WriteByte('\n')
 		}
 	}
-	fmt.Printf("{\"runs\":%d,\"streams\":%d,\"events\":%d,\"lines\":%d,\"lists\":%d,\"lists_multiblock\":%d,\"lists_exactfit\":%d,\"lists_padded\":%d,\"lists_multins\":%d}\n",
-		*runs, nstreams, nevents, line, lay.lists, lay.multiBlock, lay.exactFit, lay.padded, lay.multiNS)
+	pj, _ := json.Marshal(panics)
+	fmt.Printf("{\"runs\":%d,\"streams\":%d,\"events\":%d,\"lines\":%d,\"lists\":%d,\"lists_multiblock\":%d,\"lists_exactfit\":%d,\"lists_padded\":%d,\"lists_multins\":%d,\"panics\":%s}\n",
+		*runs, nstreams, nevents, line, lay.lists, lay.multiBlock, lay.exactFit, lay.padded, lay.multiNS, pj)
 	return 0
 }
 
